@@ -44,7 +44,7 @@ def _filter_known(prop, lines):
     return out, nviol, nknown
 
 
-def product_stage(prop, name, module, base_cfg, overrides, replayer="replay_parser", timeout=1500,
+def product_stage(prop, name, module, base_cfg, overrides, replayer="replay_parser", timeout=7200,
                   heap="8g", workers=None, extra_replayer_args="", memprop=None):
     """TLC explores `module` under base_cfg+overrides with EmitOn=TRUE; every behaviour it prints is
     executed by `replayer` (ASan+UBSan build of the current tree)."""
@@ -238,35 +238,37 @@ def _ts(MaxNodes, MaxNest, Vals, DocNames, AllCaps, WithInvalid="TRUE", Roots="R
 NAV_STAGES = {
     "C06": {"quick":    [("nav", _nav(4, 3, "ValsInt1", "NamesAB", "LookAB", "OpsNavE", "RootsOA")),
                          ("nav-history-2", _nav(3, 3, "ValsInt1", "NamesAB", "LookAB", "OpsNav", "RootsOA", HistK=2))],
-            "thorough": [("nav", _nav(6, 4, "ValsInt1", "NamesAB", "LookAB", "OpsNavE", "RootsOA")),
+            "thorough": [("nav", _nav(5, 4, "ValsInt1", "NamesAB", "LookAB", "OpsNavE", "RootsOA")),
                          ("nav-history-2", _nav(4, 3, "ValsInt1", "NamesAB", "LookAB", "OpsNav", "RootsOA", HistK=2)),
                          ("nav-mixed-values", _nav(4, 3, "ValsMix", "NamesAB", "LookAB", "OpsNavE", "RootsOA"))]},
     "C03": {"quick":    [("values-names", _nav(2, 2, "ValsAll", "NamesRich", "LookAB", "OpsNav", "RootsOA")),
                          ("full-traversals", _nav(5, 3, "ValsInt1", "NamesE", "LookAB", "OpsFull", "RootsOA", NavScope="C03,C06")),
                          ("reused-parser", _nav(3, 3, "ValsInt1", "NamesAB", "LookAB", "OpsReuse", "RootsOA")),
                          ("values-3", _nav(3, 2, "ValsAll", "NamesAB", "LookAB", "OpsWalk", "RootsOA"))],
-            "thorough": [("values-names", _nav(3, 3, "ValsAll", "NamesRich", "LookAB", "OpsWalk", "RootsOA")),
-                         ("full-traversals", _nav(7, 4, "ValsInt1", "NamesE", "LookAB", "OpsFull", "RootsOA", NavScope="C03,C06")),
-                         ("full-traversals-values", _nav(4, 3, "ValsMix", "NamesRich", "LookAB", "OpsFull", "RootsOA", NavScope="C03,C06")),
-                         ("values-nest", _nav(3, 3, "ValsAll", "NamesAB", "LookAB", "OpsNav", "RootsOA"))]},
+            "thorough": [("values-names", _nav(2, 3, "ValsAll", "NamesRich", "LookAB", "OpsNav", "RootsOA")),
+                         ("full-traversals", _nav(6, 4, "ValsInt1", "NamesE", "LookAB", "OpsFull", "RootsOA", NavScope="C03,C06")),
+                         ("full-traversals-values", _nav(3, 3, "ValsMix", "NamesRich", "LookAB", "OpsFull", "RootsOA", NavScope="C03,C06")),
+                         ("values-nest", _nav(3, 3, "ValsAll", "NamesAB", "LookAB", "OpsWalk", "RootsOA"))]},
     "C07": {"quick":    [("lookup-structure", _nav(4, 3, "ValsInt1", "NamesAB", "LookAB", "OpsLook", "RootsOA")),
                          ("lookup-names", _nav(3, 2, "ValsInt1", "NamesRich", "LookRich", "OpsLook", "RootsO")),
                          ("lookup-long-names", _nav(3, 2, "ValsInt1", "NamesLong", "LookLong", "OpsLook", "RootsO", HistK=1)),
-                         ("lookup-history-2", _nav(3, 3, "ValsInt1", "NamesAB", "LookAB", "OpsLook", "RootsOA", HistK=2))],
+                         ("lookup-history-1", _nav(3, 3, "ValsInt1", "NamesAB", "LookAB", "OpsLook", "RootsOA", HistK=1))],
             "thorough": [("lookup-structure", _nav(5, 3, "ValsInt1", "NamesAB", "LookAB", "OpsLook", "RootsOA")),
                          ("lookup-names", _nav(3, 3, "ValsMix", "NamesRich", "LookRich", "OpsLook", "RootsO")),
                          ("lookup-long-names", _nav(4, 3, "ValsInt1", "NamesLong", "LookLong", "OpsLook", "RootsO")),
+                         ("lookup-history-2", _nav(3, 3, "ValsInt1", "NamesAB", "LookAB", "OpsLook", "RootsOA", HistK=2)),
                          ("lookup-raw", _nav(4, 3, "ValsInt1", "NamesAB", "LookAB", "OpsAll", "RootsOA"))]},
     "C10": {"quick":    [("transcribe-structure", _nav(5, 4, "ValsInt1", "NamesAB", "LookAB", "OpsTrans", "RootsOA", 10)),
                          ("transcribe-values", _nav(2, 3, "ValsAll", "NamesRich", "LookAB", "OpsTrans", "RootsOA", 10)),
                          ("transcribe-mixed", _nav(4, 3, "ValsMix", "NamesAB", "LookAB", "OpsTrans", "RootsOA", 10)),
                          ("transcribe-reused-parser", _nav(4, 3, "ValsInt1", "NamesAB", "LookAB", "OpsReuseX", "RootsOA"))],
-            "thorough": [("transcribe-structure", _nav(7, 5, "ValsInt1", "NamesAB", "LookAB", "OpsTrans", "RootsOA", 10)),
+            "thorough": [("transcribe-structure", _nav(6, 4, "ValsInt1", "NamesAB", "LookAB", "OpsTrans", "RootsOA", 10)),
                          ("transcribe-values", _nav(3, 3, "ValsAll", "NamesRich", "LookAB", "OpsTrans", "RootsOA", 10)),
                          ("transcribe-reused-parser", _nav(5, 3, "ValsInt1", "NamesAB", "LookAB", "OpsReuseX", "RootsOA"))]},
     "C11": {"quick":    [("raw", _nav(4, 3, "ValsInt1", "NamesAB", "LookAB", "OpsNav", "RootsOA")),
                          ("raw-history-2", _nav(3, 3, "ValsInt1", "NamesAB", "LookAB", "OpsNav", "RootsOA", HistK=2))],
-            "thorough": [("raw", _nav(6, 4, "ValsInt1", "NamesAB", "LookAB", "OpsNav", "RootsOA")),
+            "thorough": [("raw", _nav(5, 4, "ValsInt1", "NamesAB", "LookAB", "OpsNav", "RootsOA")),
+                         ("raw-history-2", _nav(4, 3, "ValsInt1", "NamesAB", "LookAB", "OpsNav", "RootsOA", HistK=2)),
                          ("raw-lookup", _nav(4, 3, "ValsMix", "NamesAB", "LookAB", "OpsAll", "RootsOA"))]},
 }
 
@@ -338,10 +340,10 @@ SAFETY_STAGES = {
     "quick":    [("hostile-tokens", _saf(2, 3, "MaxDs12", "SigmaTok", "FillsQ")),
                  ("hostile-bytes", _saf(2, 2, "MaxDs12", "SigmaByte", "FillsQ")),
                  ("hostile-bytes-3", _saf(3, 1, "MaxDs2", "SigmaByte", "FillsTwo"))],
-    "thorough": [("hostile-tokens", _saf(3, 3, "MaxDs123", "SigmaTok", "FillsAll")),
+    "thorough": [("hostile-tokens", _saf(2, 3, "MaxDs123", "SigmaTok", "FillsAll")),
+                 ("hostile-tokens-3", _saf(3, 2, "MaxDs12", "SigmaTok", "FillsQ")),
                  ("hostile-bytes", _saf(3, 2, "MaxDs12", "SigmaByte", "FillsQ")),
-                 ("hostile-bytes-4", _saf(4, 1, "MaxDs12", "SigmaByte", "FillsQ")),
-                 ("hostile-deep", _saf(2, 4, "MaxDs12", "SigmaTok", "FillsQ"))],
+                 ("hostile-deep", _saf(1, 5, "MaxDs12", "SigmaTok", "FillsQ"))],
 }
 WRITER_Q = dict(K=2, Alpha="AlphaQ", WithReset="TRUE", AllCaps="TRUE")
 WRITER_T = dict(K=3, Alpha="AlphaQ", WithReset="TRUE", AllCaps="TRUE")
